@@ -481,6 +481,11 @@ class _Sym:
         raise AnalysisError(f"get_function_from_module: unmodelled expression `{unparse(n)}`")
 
     def truth(self, n):
+        if isinstance(n, ast.UnaryOp) and isinstance(n.op, ast.Not):
+            return not self.truth(n.operand)
+        if isinstance(n, ast.BoolOp):
+            vals = [self.truth(x) for x in n.values]
+            return all(vals) if isinstance(n.op, ast.And) else any(vals)
         v = self.val(n)
         if v[0] == "const":
             return bool(v[1])
